@@ -15,3 +15,12 @@ pub open spec fn digit_run(s: Seq<Option<u8>>) -> nat
 }
 pub open spec fn unwrap_all(s: Seq<Option<u8>>) -> Seq<u8> { Seq::new(s.len(), |i: int| s[i].unwrap()) }
 
+
+// ---- consumption seen through pending(): only a prefix of the pending bytes is consumed, and (unless a read failed,
+// which is always reported as Err) every consumed byte was a delivered byte
+pub open spec fn suffix_of(new_p: Seq<Option<u8>>, old_p: Seq<Option<u8>>) -> bool {
+    new_p.len() <= old_p.len() && new_p =~= old_p.subrange(old_p.len() - new_p.len(), old_p.len() as int)
+}
+pub open spec fn consumed(old_p: Seq<Option<u8>>, new_p: Seq<Option<u8>>) -> Seq<Option<u8>> { old_p.subrange(0, old_p.len() - new_p.len()) }
+pub open spec fn no_fault(s: Seq<Option<u8>>) -> bool { forall|i: int| 0 <= i < s.len() ==> (#[trigger] s[i]) is Some }
+pub open spec fn advance(old_p: Seq<Option<u8>>, new_p: Seq<Option<u8>>) -> bool { suffix_of(new_p, old_p) && no_fault(consumed(old_p, new_p)) }
